@@ -111,9 +111,9 @@ PROBES = [
     ("softkw-head-nested-lambda-colon", "m", "match = lambda a=lambda: 1: 2\n"),
     ("softkw-head-other-colon", "m", "case = 1; x: int = 2\n"),
     ("identifier-not-nfkc", "m", "ﬁ = 1\n"),
-    ("subscript-single-starred-not-tuple", "m", "x[*a]\n"),
     ("string-prefix-uppercase-u-kind", "m", "U'a'\n"),
     ("fstring-concat-u-kind-not-in-format-spec", "m", "u'a' f'{x:>{w}}'\n"),
+    ("subscript-starred-index-not-full-expression", "m", "x[*a or b]\n"),
     ("type-alias-not-at-line-start", "m", "pass; type X = int\n"),
     ("with-item-starred-target", "m", "with x as *a: pass\n"),
 ]
@@ -137,6 +137,49 @@ def _logical_line_before(src, off):
     b = src.encode("utf-8")
     s = max(b.rfind(b"\n", 0, off), b.rfind(b"\r", 0, off)) + 1
     return b[s:].decode("utf-8", "replace")
+
+
+_STAR_INDEX_STOP = re.compile(rb"(or|and|not|if|in|is|lambda)\b|[<>]=?|==|!=")
+
+
+def _starred_index_shape(b, off):
+    """the rejected token at `off` continues a starred element `*expr` of a subscript `[...]` with an operator of
+    lower precedence than `|` (or/and/not/comparison/conditional/lambda)"""
+    if not _STAR_INDEX_STOP.match(b, off):
+        return False
+    depth = 0
+    k = off - 1
+    start = None
+    while k >= 0:
+        c = b[k:k + 1]
+        if c in (b")", b"]", b"}"):
+            depth += 1
+        elif c in (b"(", b"{"):
+            if depth == 0:
+                return False
+            depth -= 1
+        elif c == b"[":
+            if depth == 0:
+                start = k
+                break
+            depth -= 1
+        elif c in (b"\n", b"\r") and depth == 0 and b"'" in b[k:off]:
+            return False
+        k -= 1
+    if start is None or b"'" in b[start:off] or b'"' in b[start:off] or b"#" in b[start:off]:
+        return False
+    if not re.search(rb"[\w)\]}'\"]\s*$", b[:start]):
+        return False            # `[` does not follow a primary: a list display, not a subscript
+    seg, depth, last = b[start + 1:off], 0, 0
+    for i, c in enumerate(seg):
+        if c in b"([{":
+            depth += 1
+        elif c in b")]}":
+            depth -= 1
+        elif c == 44 and depth == 0:
+            last = i + 1
+    el = seg[last:].lstrip()
+    return el.startswith(b"*") and not el.startswith(b"**")
 
 
 def classify_reject(src, out):
@@ -167,6 +210,8 @@ def classify_reject(src, out):
         line0 = _line_of(src, off)
         if re.search(r"[;:][ \t]*type[ \t]+\w+[^=\n]*=", line0):
             return "type-alias-not-at-line-start"
+        if _starred_index_shape(b, off):
+            return "subscript-starred-index-not-full-expression"
         pre = b[:off].decode("utf-8", "replace")
         if b[off:off + 1] == b"*" and re.search(r"\bas[ \t]*$", pre) and re.search(r"(^|\n|\r|:|;)[ \t]*(async[ \t]+)?with\b[^\n\r]*$", pre):
             return "with-item-starred-target"
@@ -205,12 +250,6 @@ def classify_diff(d):
                 return "identifier-not-nfkc"
         except ValueError:
             pass
-    if last == "kind" and not isinstance(x, (str, list)) and not isinstance(y, (str, list)):
-        parent_field = path.rsplit(".", 2)[-2] if path.count(".") >= 2 else ""
-        if x[0] == "ExprStarred" and y[0] == "ExprTuple" and parent_field == "slice":
-            elts = dict(y[2])["elts"]
-            if len(elts) == 1 and _same_or_known(x, elts[0]):
-                return "subscript-single-starred-not-tuple"
     if last == "kind" and x == "s:75" and y == "None" and d["pa"] and d["pa"][0] == "ExprConstant":
         return "string-prefix-uppercase-u-kind"
     if last == "kind" and x == "None" and y == "s:75" and ".format_spec." in path:
@@ -594,6 +633,8 @@ def streams(ctx):
               "x = not a is not b\n", "x = a if b else c if d else e\n", "x = a < b <= c != d\n", "x = -1 ** -2\n", "x = (yield)\n",
 "match x,:\n case _: pass\n", "match x ,  :\n case _: pass\n", "match *a,:\n case _: pass\n", "match (x),:\n case _: pass\n", "match w := x,:\n case y as v,: pass\n",
               "match x:\n case _: pass\n", "match (x,):\n case _: pass\n", "match x, y,:\n case _: pass\n",      # repaired (`match x,:` subject is Tuple([x])): regressions are violations
+"x[*a]\n", "x[ *a ]\n", "x[*a,]\n", "x[*a, b]\n", "x[(*a,)]\n", "tuple[*tuple[*Ts]]\n", "def f(*args: *Ts) -> Tuple[*Ts]: ...\n", "x[*a] = 1\n", "del x[*a]\n", "x[*a | b]\n",
+              "x[a]\n", "x[a:b]\n", "x[a := 1]\n",      # repaired (`x[*a]`: the slice is Tuple([Starred])): regressions are violations
               "(x): int = 1\n", "(x): int\n", "((x)): int = 1\n", "x: int = 1\n", "(x.y): int = 1\n", "if a: (x): int = 1\n", "pass; (x): int\n",   # repaired (annassign simple flag): regressions are violations
               "﻿x = 1\n", "x = 1\r\ny = 2\r\n", "x = 1\ry = 2\r", "if x:\n\ty\n", "x = \\\n  1\n", "", "\n", "# only a comment", "pass"]
     reqs += [refsweep.make_request("m", 1, s, None) for s in corpus]
@@ -608,6 +649,14 @@ def streams(ctx):
     fixed += _pep695_corpus()
     out.append(Stream("probes+corpus", fixed, kind="corpus", compare=False,
                       note="one deterministic probe per listed known finding, then regression inputs"))
+    # 1b. every directed shape of tools/shapes.py, deterministically (parameter-list sections, with-items of every expression
+    #     kind, rare productions: the grammar regions the coverage map showed random generation not to reach)
+    import shapes
+    items = []
+    for t in gen_program._shape_pool():
+        items.append((t, None, refsweep.reference(t, "m", None)))
+    out.append(_sweep_stream(ctx, "sweep-directed-shapes", [it for it in items if it[2] is not None], "m",
+                             "%d directed texts of tools/shapes.py (CPython-3.11-valid ones), Module mode" % len(items), kind="directed"))
 
     # 2. mechanism correspondence (real parser vs Lean model, plus CPython as oracle)
     out.append(Stream("mech-setContext", setctx_requests(ctx, 60 if q else 1500), kind="directed", oracle=_mech_oracle,
